@@ -728,6 +728,11 @@ def ma(ctx):
     szof_c = any('size_of' in m for (m, r, _c) in tc)
     ctx.check(ok1, 'payload-pair', qsz[0].span, 'size uses concatenated_records.len(), capacity uses its capacity()', 'payload bytes are not accounted as len() in size and capacity() in capacity (size:%s capacity:%s)' % (sorted(s_pairs), sorted(c_pairs)))
     ctx.check(ok2 and szof_s and szof_c, 'metas-pair', qsz[0].span, 'size uses record_metas.len() * size_of, capacity uses record_metas.capacity() * size_of', 'record metas are not accounted as len()*size_of in size and capacity()*size_of in capacity')
+    # every term of size() has its twin in capacity() and vice versa (len <-> capacity, same receiver)
+    norm_s = {('capacity' if m == 'len' else m, r) for (m, r, _c) in ts if 'size_of' not in m}
+    norm_c = {(m, r) for (m, r, _c) in tc if 'size_of' not in m}
+    ctx.check(norm_s == norm_c, 'term-sets-agree', qsz[0].span, 'size() and capacity() are built from the same terms (len <-> capacity)',
+              'size() and capacity() are not built from corresponding terms (size: %s, capacity: %s): memory_used can exceed memory_allocated' % (sorted(map(str, norm_s - norm_c)), sorted(map(str, norm_c - norm_s))))
     no_cap_in_used = not any(m == 'capacity' for (m, r, _c) in ts)
     ctx.check(no_cap_in_used, 'used-has-no-capacity', qsz[0].span, 'no capacity() term in the used figure', 'memory_used is computed from a capacity() (it would not drop when data is evicted)')
     # MemQueues::size closures: name.len()+queue.size() -> .0 ; name.capacity()+queue.capacity() -> .1
@@ -886,3 +891,35 @@ def rp2(ctx):
                   'an existing queue can survive a replayed position record without being empty and exactly at that position (comparison is not an equality): a stale queue left by a lost entry is not reset and later entries fail to apply')
     if n == 0:
         ctx.missing('ack', 'no position re-alignment function (fn(&mut MemQueues, &str, u64)) with an insert found')
+
+
+@rule('MA5', ['C16'], floor=2, template='pairing')
+def ma5(ctx):
+    """Appending stores meta and payload together; partial truncation drops metas and payload bytes together."""
+    ap = ctx.fn('mem::queue::MemQueue::append_record')
+    th = ctx.fn('mem::queue::MemQueue::truncate_head')
+    if not ap or not th:
+        ctx.missing('fns', 'MemQueue::append_record / truncate_head not found')
+        return
+    b = ap[0]
+    push = [cs.point for cs in b.calls if re.search(r'Vec::<mem::queue::RecordMeta>::push$', cs.name)]
+    ext = [cs.point for cs in b.calls if cs.node is not None and ctx.f.bodies[cs.node].path.startswith('mem::rolling_buffer::RollingBuffer::') and ctx.E.call_may(cs, 'MEM')]
+    exits = [e['point'] for e in b.exits() if e['kind'] == 'ok']
+    both = bool(push) and bool(ext) and all(any(b.dominates(p, e) for p in push) and any(b.dominates(p, e) for p in ext) for e in exits)
+    fl = flow_of(b)
+    pay = [i for i in range(1, b.arg_count + 1) if b.local_ty(i) == '&[u8]']
+    flows = bool(pay) and any(cs.point in ext and len(cs.args) > 1 and ('l', pay[0]) in fl.backward(set(fl.op_nodes(cs.args[1])), skip_mem=True) for cs in b.calls)
+    ctx.check(both and flows, 'append:meta-and-payload', b.span, 'Ok dominated by the meta push and by the payload being appended to the ring buffer',
+              'a record can be appended without both its meta and its payload bytes being stored (accounting and reads would diverge)')
+    t = th[0]
+    drains = [cs.point for cs in t.calls if re.search(r'Vec::<mem::queue::RecordMeta>::drain', cs.name)]
+    bufs = [cs.point for cs in t.calls if cs.node is not None and ctx.f.bodies[cs.node].path == 'mem::rolling_buffer::RollingBuffer::truncate_head']
+    paired = bool(drains) and bool(bufs) and all(any(t.dominates(d, x) or t.dominates(x, d) for x in bufs) for d in drains)
+    rb = ctx.fn('mem::rolling_buffer::RollingBuffer::truncate_head')
+    dr = bool(rb) and any(re.search(r'VecDeque::<u8>::drain', cs.name) for cs in rb[0].calls)
+    must_dr = False
+    if rb and dr:
+        c = [cs.point for cs in rb[0].calls if re.search(r'VecDeque::<u8>::drain', cs.name)]
+        must_dr = not any(e in rb[0].reach([rb[0].entry], avoid=c) for e in rb[0].return_points())
+    ctx.check(paired and must_dr, 'truncate:metas-and-payload', t.span, 'partial truncation drains the metas and the payload bytes together',
+              'a partial truncation can drop record metas without dropping their payload bytes (or vice versa): memory_used would not drop by what was evicted')
